@@ -6,6 +6,7 @@ Patches are turned into text edits (module, old block, new block) by applying th
 diffing; a seed whose old block is not unique in the current module is dropped here (and would be n/a at run time)."""
 import difflib, json, pathlib, shutil, subprocess, sys, tempfile
 ROOT = pathlib.Path(__file__).resolve().parent.parent
+sys.path.insert(0, str(ROOT))
 sys.path.insert(0, str(ROOT / "tools" / "corpus"))
 from corpus1 import M as M1
 from corpus2 import M as M2
@@ -68,11 +69,45 @@ for sd in sorted((ROOT / "seeded").iterdir()):
     for pr in real:
         seeds.append({"id": f"seeded/{sd.name}", "property": pr, "edits": ed, "expect": pr, "benign": False, "origin": "independent sub-agent change", "note": ""})
     n_sub += 1
+# a refactoring is registered with the properties whose obligations it touches (their list of rule instances differs between the clean and the
+# refactored tree); one that changes no obligation of any property is kept with a single property in rotation. This keeps the thorough tier's
+# run time proportional to what each property actually looks at.
+import concurrent.futures as cf
+from sa.cli import analyse, PROPS   # noqa: E402
+BASE_SRC = {f.name: f.read_text() for f in pathlib.Path("/repo/src/aioftp").glob("*.py")}
+
+
+def _sig(srcs, pr):
+    st, F, ctx, msg = analyse(pr, srcs)
+    if st != "ok":
+        return ("!" + st,)
+    return tuple(sorted((o["rule"], o["site"], o["what"], o["ok"]) for o in ctx.obligations))
+
+
+BASE_SIG = {pr: _sig(BASE_SRC, pr) for pr in PROPS}
+
+
+def _sensitive(args):
+    name, ed = args
+    srcs = dict(BASE_SRC)
+    for e in ed:
+        if srcs[e["module"]].count(e["old"]) != 1:
+            return name, list(PROPS)
+        srcs[e["module"]] = srcs[e["module"]].replace(e["old"], e["new"])
+    return name, [pr for pr in PROPS if _sig(srcs, pr) != BASE_SIG[pr]]
+
+
+todo = []
 for bd in sorted((ROOT / "tools" / "benign_patches").iterdir()):
     ed = edits_of_patch(bd / "patch.diff")
-    if not ed:
-        continue
-    seeds.append({"id": f"refactoring/{bd.name}", "property": "*", "edits": ed, "expect": None, "benign": True, "origin": "independent sub-agent refactoring", "note": ""})
+    if ed:
+        todo.append((bd.name, ed))
+with cf.ProcessPoolExecutor(14) as ex:
+    sens = dict(ex.map(_sensitive, todo))
+for k, (name, ed) in enumerate(todo):
+    props_ = sens[name] or [PROPS[k % len(PROPS)]]
+    seeds.append({"id": f"refactoring/{name}", "property": "+", "properties": props_, "edits": ed, "expect": None, "benign": True,
+                  "origin": "independent sub-agent refactoring", "note": ""})
     n_ben += 1
 (ROOT / "sa" / "selfval_seeds.json").write_text(json.dumps(seeds, indent=0) + "\n")
 print(len(seeds), "seed entries;", sum(1 for s in seeds if s["benign"]), "benign;", n_sub, "sub-agent changes;", n_ben, "sub-agent refactorings")
